@@ -146,6 +146,8 @@ func propC18() *PropSpec {
 			js = append(js, jobsN(".", "VerifMediatype", pick(rng(0, 5), rng(0, 6)), "Mediatype on all byte strings of n bytes")...)
 			js = append(js, jobsN(".", "VerifDataURIRaw", pick(rng(1, 4), rng(1, 4)), "data: + n arbitrary bytes, empty registry")...)
 			js = append(js, jobsN(".", "VerifDataURIPayload", pick(rng(0, 2), rng(0, 3)), "10 headers x n arbitrary payload bytes x stub registered or not")...)
+			js = append(js, jobsN(".", "VerifDataURIUnits", pick([]int{7}, rng(5, 8)), "3 headers x n payload units from {%23,a,x,y} x stub or not (encoding decision on longer payloads)")...)
+			js = append(js, jobsN(".", "VerifDataURIRuns", pick([]int{16}, []int{16, 40}), "payload = k x %23 + i x 'x' + j x 'y', k <= n: minifier shrinks/grows the payload across base64 quantum borders")...)
 			js = append(js, Job{Pkg: ".", Fn: "VerifDataURITwin", N: 2, ExpectFail: true, Desc: "vacuity twin"})
 			return js
 		},
